@@ -13,6 +13,7 @@ import (
 	"verif/sim/props/c04"
 	"verif/sim/props/c05"
 	"verif/sim/props/c13"
+	"verif/sim/props/c18"
 )
 
 func props() map[string]core.Prop {
@@ -20,6 +21,7 @@ func props() map[string]core.Prop {
 		"C04": c04.Prop{},
 		"C05": c05.Prop{},
 		"C13": c13.Prop{},
+		"C18": c18.Prop{},
 	}
 }
 
